@@ -140,7 +140,8 @@ class VdirStore(Store):
                 self._uid_to_fname[uid] = (name, etag)
         for name in removed:
             (unused_etag, uid) = self._fname_to_uid[name]
-            if uid is not None:
+            # Another member may have taken over the UID meanwhile
+            if uid is not None and self._uid_to_fname.get(uid, (None,))[0] == name:
                 del self._uid_to_fname[uid]
             del self._fname_to_uid[name]
 
